@@ -6,21 +6,23 @@
 EXTENDS SelectAlg, TLAPS
 
 LEMMA InitInv == Init => Inv
-  BY DEF Assumptions, params, Init, Inv, TypeOK, WantInv, SandwichInv, Post, Idx, InWin
+  BY DEF Assumptions, params, Init, Inv, TypeOK, NoPanicInRange, OorInv, InRange, WantInv, SandwichInv, Post, Idx, InWin
 
 LEMMA CheckRangeInv == Inv /\ CheckRange => Inv'
-  BY DEF Assumptions, params, Inv, CheckRange, TypeOK, WantInv, SandwichInv, Post, Idx, InWin
+  BY DEF Assumptions, params, Inv, CheckRange, TypeOK, NoPanicInRange, OorInv, InRange, WantInv, SandwichInv, Post, Idx, InWin
 
 LEMMA LenOneInv == Inv /\ LenOneShortcut => Inv'
-  BY DEF Assumptions, params, Inv, LenOneShortcut, Guarded, TypeOK, WantInv, SandwichInv, Post, Idx, InWin
+  BY DEF Assumptions, params, Inv, LenOneShortcut, Guarded, TypeOK, NoPanicInRange, OorInv, InRange, WantInv, SandwichInv, Post, Idx, InWin
 
 LEMMA EmptyRangeInv == Inv /\ EmptyRangePanic => Inv'
-  BY DEF Assumptions, params, Inv, EmptyRangePanic, Guarded, TypeOK, WantInv, SandwichInv, Post, Idx, InWin
+  BY DEF Assumptions, params, Inv, EmptyRangePanic, Guarded, TypeOK, NoPanicInRange, OorInv, InRange, WantInv, SandwichInv, Post, Idx, InWin
 
 LEMMA DrawInv == Inv /\ DrawAndPartition => Inv'
   <1> SUFFICES ASSUME Inv, DrawAndPartition PROVE Inv'
     OBVIOUS
   <1> USE DEF Idx, InWin
+  <1>00. InRange /\ InRange'
+    BY DEF Inv, TypeOK, OorInv, InRange, DrawAndPartition, Guarded, params, Assumptions
   <1>0. /\ TypeOK /\ WantInv /\ SandwichInv /\ pc = "run" /\ want < hi - lo /\ hi - lo >= 2
         /\ Len0' = Len0 /\ Want0' = Want0
     BY DEF Inv, DrawAndPartition, Guarded, params
@@ -43,7 +45,7 @@ LEMMA DrawInv == Inv /\ DrawAndPartition => Inv'
   <1>3. /\ lo \in Int /\ hi \in Int /\ want \in Int /\ k \in Int /\ 0 <= k /\ k < hi - lo
         /\ 0 <= lo /\ lo <= hi /\ hi <= Len0 /\ Len0 \in Nat /\ Want0 \in Nat /\ Want0 < Len0
         /\ lo + want = Want0 /\ 0 <= want /\ lo + k \in Idx /\ InWin(lo + k)
-    BY <1>0 DEF TypeOK, WantInv, Assumptions, Idx, InWin
+    BY <1>0, <1>00 DEF TypeOK, WantInv, Assumptions, Idx, InWin
   \* the window's new contents keep the old bounds against everything outside the window
   <1>4. \A x \in Idx : \A y \in Idx : InWin(y) => ((x < lo  => arr'[x] <= arr'[y]) /\ (x >= hi => arr'[y] <= arr'[x]))
     <2> SUFFICES ASSUME NEW x \in Idx, NEW y \in Idx, InWin(y)
@@ -64,7 +66,7 @@ LEMMA DrawInv == Inv /\ DrawAndPartition => Inv'
     <2>2. TypeOK'
       BY <1>0, <1>2, <1>3, <2>1 DEF TypeOK, Assumptions, Idx
     <2>3. WantInv'
-      BY <1>0, <1>3, <2>1, <1>a DEF WantInv
+      BY <1>0, <1>3, <2>1, <1>a, <1>00 DEF WantInv
     <2>4. SandwichInv'
       <3> SUFFICES ASSUME NEW x \in Idx, NEW y \in Idx, lo <= y, y < lo + k
                    PROVE (x < lo => arr'[x] <= arr'[y]) /\ (x >= lo + k => arr'[y] <= arr'[x])
@@ -80,7 +82,9 @@ LEMMA DrawInv == Inv /\ DrawAndPartition => Inv'
       <3> QED BY <3>1, <3>2, <3>3, <3>4, <1>5, <1>3
     <2>5. Post'
       BY <1>0, <2>1 DEF Post
-    <2> QED BY <2>2, <2>3, <2>4, <2>5 DEF Inv
+    <2>6. NoPanicInRange' /\ OorInv'
+      BY <1>00, <1>0, <2>1 DEF NoPanicInRange, OorInv
+    <2> QED BY <2>2, <2>3, <2>4, <2>5, <2>6 DEF Inv
   <1>b. CASE want = k
     <2>1. ret' = arr'[lo + want] /\ pc' = "done" /\ lo' = lo /\ hi' = hi /\ want' = want
       BY <1>1, <1>b
@@ -106,14 +110,16 @@ LEMMA DrawInv == Inv /\ DrawAndPartition => Inv'
           BY <1>2, <1>3, <1>5, <3>1, <3>3, <4>2 DEF InWin
         <4> QED BY <4>1, <4>2, <1>3
       <3> QED BY <1>0, <2>1, <3>1, <3>2, <3>3 DEF Post, Idx
-    <2> QED BY <2>2, <2>3, <2>4, <2>5 DEF Inv
+    <2>6. NoPanicInRange' /\ OorInv'
+      BY <1>00, <1>0, <2>1 DEF NoPanicInRange, OorInv
+    <2> QED BY <2>2, <2>3, <2>4, <2>5, <2>6 DEF Inv
   <1>c. CASE want > k
     <2>1. lo' = lo + k + 1 /\ want' = want - (k + 1) /\ hi' = hi /\ ret' = ret /\ pc' = pc
       BY <1>1, <1>3, <1>c
     <2>2. TypeOK'
       BY <1>0, <1>2, <1>3, <2>1, <1>c DEF TypeOK, Assumptions, Idx
     <2>3. WantInv'
-      BY <1>0, <1>3, <2>1, <1>c DEF WantInv
+      BY <1>0, <1>3, <2>1, <1>c, <1>00 DEF WantInv
     <2>4. SandwichInv'
       <3> SUFFICES ASSUME NEW x \in Idx, NEW y \in Idx, lo + k + 1 <= y, y < hi
                    PROVE (x < lo + k + 1 => arr'[x] <= arr'[y]) /\ (x >= hi => arr'[y] <= arr'[x])
@@ -129,11 +135,13 @@ LEMMA DrawInv == Inv /\ DrawAndPartition => Inv'
       <3> QED BY <3>1, <3>2, <3>3, <3>4, <1>5, <1>3
     <2>5. Post'
       BY <1>0, <2>1 DEF Post
-    <2> QED BY <2>2, <2>3, <2>4, <2>5 DEF Inv
+    <2>6. NoPanicInRange' /\ OorInv'
+      BY <1>00, <1>0, <2>1 DEF NoPanicInRange, OorInv
+    <2> QED BY <2>2, <2>3, <2>4, <2>5, <2>6 DEF Inv
   <1> QED BY <1>a, <1>b, <1>c, <1>3
 
 LEMMA StutterInv == Inv /\ UNCHANGED vars => Inv'
-  BY DEF Assumptions, params, Inv, vars, TypeOK, WantInv, SandwichInv, Post, Idx, InWin
+  BY DEF Assumptions, params, Inv, vars, TypeOK, NoPanicInRange, OorInv, InRange, WantInv, SandwichInv, Post, Idx, InWin
 
 THEOREM Safety == Spec => []Inv
   <1>1. Inv /\ [Next]_vars => Inv'
